@@ -13,5 +13,16 @@ func init() {
 		gfSpec{Pkg: "./pkg/smartcontract/manifest", Recv: "PermissionDesc", Func: "Compare", Lean: "permissionDescCompare"},
 		gfSpec{Pkg: "./pkg/smartcontract/manifest", Recv: "Group", Func: "IsValid", Lean: "manifestGroupIsValid"},
 		gfSpec{Pkg: "./pkg/core/interop", Recv: "Context", Func: "SyscallHandler", Lean: "interopSyscallHandler"},
+		// translator v2: bit operations, string comparisons
+		gfSpec{Pkg: "./pkg/core/interop/contract", Func: "callInternal", Lean: "contractCallInternal", Sink: "callExFromNative"},
+		gfSpec{Pkg: "./pkg/core/interop/contract", Func: "callInternal", Lean: "contractCallInternalOutcome"},
+		gfSpec{Pkg: "./pkg/core/interop/runtime", Func: "LoadScript", Lean: "runtimeLoadScript", Sink: "ic.VM.LoadDynamicScript"},
+		gfSpec{Pkg: "./pkg/core/native", Func: "Call", Lean: "nativeCall"},
+		gfSpec{Pkg: "./pkg/smartcontract/callflag", Recv: "CallFlag", Func: "Has", Lean: "callflagHas"},
+		gfSpec{Pkg: "./pkg/smartcontract/manifest", Recv: "Manifest", Func: "IsValid", Lean: "manifestIsValid"},
+		gfSpec{Pkg: "./pkg/smartcontract/manifest", Recv: "Method", Func: "IsValid", Lean: "manifestMethodIsValid"},
+		gfSpec{Pkg: "./pkg/smartcontract/manifest", Recv: "Parameter", Func: "IsValid", Lean: "manifestParameterIsValid"},
+		gfSpec{Pkg: "./pkg/smartcontract/manifest", Recv: "Event", Func: "IsValid", Lean: "manifestEventIsValid"},
+		gfSpec{Pkg: "./pkg/core/interop/contract", Func: "CallFromNative", Lean: "contractCallFromNative", Sink: "callExFromNative"},
 	)
 }
